@@ -61,7 +61,7 @@ m = {
     'setup_cmd': 'true',
     'hooks': {
         'guard': 'cfg(kani) / cfg(verif_replay) — exist only inside the scratch copy the checks make; /repo carries no hooks',
-        'enable': 'checks copy the working tree to a scratch directory and append `#[cfg(any(kani, all(verif_replay, test)))] #[cfg(not(verif_skip_<module>))] mod ...;` lines there (append-only; plus a two-method `impl Params` hook and one Cargo.toml table for anstream, see kani/anstream/inject.json); Verus units are extracted from the working tree by tools/extract.py',
+        'enable': 'checks copy the working tree to a scratch directory and append `#[cfg(any(kani, all(verif_replay, test)))] #[cfg(not(verif_skip_<module>))] mod ...;` lines there (append-only; plus a two-method `impl Params` hook, an `impl Parser` stand-in method for `advance` with two log statics (`cfg(any(kani, verif_replay))`) and one Cargo.toml table for anstream, see kani/anstream/inject.json); Verus units are extracted from the working tree by tools/extract.py',
         'baseline_off_cmd': 'cd /repo && cargo test --workspace --no-fail-fast --offline',
         'source_commits': [],
         'add_only': True,
